@@ -30,6 +30,11 @@ func registerScanner(e *Engine) {
 		if !ok || p.IsNil() {
 			panic(unsupported("bufio.NewScanner over a reader without model"))
 		}
+		if _, h, isFile := handleOf(c.St, r.V); isFile {
+			// scanner over a model file: the whole current content (lines are far below the 64 KiB token limit)
+			id := c.St.Alloc(Opaque{Kind: "bufio.Scanner", Data: scanState{Rest: StrConcat(c.St.fs().Files[h.File].Data...), Tok: StrC("")}})
+			return c.Return(Ptr{Obj: id})
+		}
 		o, ok := c.St.Heap[p.Obj].(Opaque)
 		if !ok || o.Kind != "strings.Reader" {
 			panic(unsupported("bufio.NewScanner over a reader without model"))
@@ -77,6 +82,11 @@ func registerScanner(e *Engine) {
 			{Cond: And(Eq(rest, StrConcat(l, nl, nr)), Not(StrContains(l, nl))), Ret: True, Eff: set(dropCR(l), nr)},
 		})
 	}
+	e.Intr["(*bufio.Scanner).Bytes"] = func(c *Call) []*State {
+		_, ss := get(c)
+		return c.Return(Bytes{S: ss.Tok})
+	}
+	e.Intr["(*bufio.Scanner).Buffer"] = func(c *Call) []*State { return c.Return(nil) }
 	e.Intr["(*bufio.Scanner).Text"] = func(c *Call) []*State {
 		_, ss := get(c)
 		return c.Return(ss.Tok)
